@@ -15,7 +15,8 @@ The rule reads the three functions through one level of helper calls (a shared `
 likely refactoring), resolving helper parameters and `this` back to the roles SRC / NEW / PARAMS / ARGS.
 """
 from ..front import AnalysisBroken
-from ..facts import walk, short
+from ..facts import walk, short, calls
+from ..inline import expanded_fn
 
 TARGETS = [("UTAP::Document::add_instance", 5), ("UTAP::Document::add_LSC_instance", 5),
            ("UTAP::instance_line_t::add_parameters", 3)]
@@ -215,14 +216,23 @@ def run_arity_sync(chk, F, rid="R-ARITYSYNC"):
                 hits.add(lhs["name"])
         if not hits:
             continue
-        n += 1
-        names = {c.get("name") for c in walk(fn["body"]) if c.get("k") == "call"}
-        typed = bool(names & {"create_instance", "create_LSC_instance", "create_process", "create_process_set"}) and \
-            bool(names & {"add_symbol", "set_type"})
-        exempt = fn["q"].endswith("::add_parameters")      # instance lines: registered by instance_name with a primitive type
-        chk.ob(rid, fn["q"].split("::")[-1], typed or exempt,
-               "%s assigns instance_t::%s but does not (re)create the symbol's instance type from the same parameter "
-               "frame: the arity of the type and the number of unbound parameters can differ afterwards" %
-               (fn["q"], "/".join(sorted(hits))), "%s:%s" % (fn["file"], fn["line"]))
+        # a file-local worker (`static instance_t& append_instance(list&, frame&, name, type, ...)`) is judged through
+        # the functions that call it, with the worker expanded into them
+        units = [fn]
+        if fn.get("static") and not fn.get("cls"):
+            callers = [g for g in F.functions.values() if g.get("file") == fn.get("file") and g["q"] != fn["q"] and
+                       any(c.get("fn") == fn["q"] for c in calls(g.get("body")))]
+            if callers:
+                units = [expanded_fn(g, F) for g in callers]
+        for u in units:
+            n += 1
+            names = {c.get("name") for c in walk(u["body"]) if c.get("k") == "call"}
+            typed = bool(names & {"create_instance", "create_LSC_instance", "create_process", "create_process_set"}) and \
+                bool(names & {"add_symbol", "set_type"})
+            exempt = u["q"].endswith("::add_parameters")   # instance lines: registered by instance_name with a primitive type
+            chk.ob(rid, u["q"].split("::")[-1], typed or exempt,
+                   "%s assigns instance_t::%s but does not (re)create the symbol's instance type from the same parameter "
+                   "frame: the arity of the type and the number of unbound parameters can differ afterwards" %
+                   (u["q"], "/".join(sorted(hits))), "%s:%s" % (u["file"], u["line"]))
     if n < 2:
         raise AnalysisBroken("only %d functions assign instance_t::unbound/parameters" % n)
